@@ -15,6 +15,9 @@ from dznpy.adv_shell.common import Configuration, FacilitiesOrigin
 from dznpy.adv_shell.port_selection import PortSelect, PortWildcard, PortsCfg, PortsSemanticsCfg
 from dznpy.scoping import ns_ids_t
 
+# fields of the reply enum: the granting values used ('Ok', 'Busy') are substrings of / next to other fields
+RES_FIELDS = ('NotOk', 'Ok', 'Busy')
+
 # extern data types: name -> C++ spelling (all defined by the mock model header of ShellSem)
 EXTERNS = {'TInt': 'int', 'TBlob': 'Blob', 'TStr': 'std::string'}
 
@@ -53,18 +56,19 @@ class Model:
 
 
 I_A = Itf('VfIA', (Ev('e0', 'in'), Ev('o0', 'out')))
+# in- and out-events deliberately interleaved in declaration order
 I_B = Itf('VfIB', (Ev('e1', 'in', 'Res', (('a', 'in', 'TInt'), ('b', 'out', 'TBlob'), ('c', 'inout', 'TInt'))),
-                 Ev('e2', 'in', 'void', (('s', 'in', 'TStr'),)),
-                 Ev('e3', 'in', 'Res', (('x', 'in', 'TInt'), ('y', 'in', 'TInt'), ('z', 'inout', 'TInt'), ('w', 'out', 'TInt'))),
                  Ev('o3', 'out', 'void', (('x', 'in', 'TInt'), ('y', 'in', 'TInt'), ('t', 'in', 'TStr'), ('u', 'in', 'TStr'))),
+                 Ev('e2', 'in', 'void', (('s', 'in', 'TStr'),)),
                  Ev('o1', 'out', 'void', (('a', 'in', 'TInt'), ('b', 'in', 'TBlob'))),
+                 Ev('e3', 'in', 'Res', (('x', 'in', 'TInt'), ('y', 'in', 'TInt'), ('z', 'inout', 'TInt'), ('w', 'out', 'TInt'))),
                  Ev('o2', 'out')), has_res=True)
-I_C = Itf('VfIC', (Ev('Claim', 'in', 'Res'), Ev('Release', 'in'),
+I_C = Itf('VfIC', (Ev('Claim', 'in', 'Res'), Ev('Done', 'out'), Ev('Release', 'in'),
                  Ev('Work', 'in', 'Res', (('a', 'in', 'TInt'), ('b', 'in', 'TInt'))),
-                 Ev('Done', 'out'), Ev('Fail', 'out', 'void', (('x', 'in', 'TBlob'), ('y', 'in', 'TBlob')))), has_res=True)
+                 Ev('Fail', 'out', 'void', (('x', 'in', 'TBlob'), ('y', 'in', 'TBlob')))), has_res=True)
 # claim / release under other names and with formals; an unrelated event is literally called Release
-I_C2 = Itf('VfIC2', (Ev('Acquire', 'in', 'Res', (('who', 'in', 'TInt'), ('tok', 'out', 'TInt'))),
-                   Ev('GiveBack', 'in', 'void', (('who', 'in', 'TInt'),)),
+I_C2 = Itf('VfIC2', (Ev('Acquire', 'in', 'Res', (('who', 'in', 'TInt'), ('tok', 'out', 'TInt'), ('cnt', 'inout', 'TInt'))),
+                   Ev('GiveBack', 'in', 'void', (('who', 'in', 'TInt'), ('cnt', 'inout', 'TInt'))),
                    Ev('Release', 'in', 'void', (('port', 'in', 'TInt'),)),
                    Ev('identifier', 'out', 'void', (('port', 'in', 'TInt'),))), has_res=True)
 I_D = Itf('VfID', ())
@@ -88,6 +92,9 @@ MODELS: List[Model] = [
     Model('mc-last', ('N', 'M'), (I_A, I_C2),
           (Prt('other', 'provides', 'VfIA'), Prt('ctl', 'provides', 'VfIC2'), Prt('r', 'requires', 'VfIA'))),
     Model('mc-only', (), (I_C,), (Prt('Api', 'provides', 'VfIC'),)),
+    Model('three-requires', ('N',), (I_A, I_F),
+          (Prt('p', 'provides', 'VfIA'), Prt('motorA', 'requires', 'VfIA'), Prt('sensor', 'requires', 'VfIF'),
+           Prt('motorB', 'requires', 'VfIA'))),
 ]
 MODEL_BY_LABEL = {m.label: i for i, m in enumerate(MODELS)}
 
@@ -105,7 +112,7 @@ def model_doc(m: Model) -> dict:
     for itf in m.itfs:
         events = [dg.event(e.name, e.direction, [e.reply],
                            [dg.formal(fn, [ft], fd) for fn, fd, ft in e.formals]) for e in itf.events]
-        types = [dg.enum(['Res'], ['Ok', 'Nok', 'Busy'])] if itf.has_res else []
+        types = [dg.enum(['Res'], list(RES_FIELDS))] if itf.has_res else []
         inner.append(dg.interface([itf.name], events, types))
     prts = [dg.port(p.name, [p.itf], p.direction, p.injected) for p in m.ports]
     if m.system:
@@ -148,9 +155,13 @@ def port_cfgs(m: Model) -> List[Tuple[str, PortsCfg]]:
     out.append(('all_mts_all_sts', all_mts_all_sts(mc)))
     if reqs:
         out.append(('mts_mixed_explicit', all_mts_mixed_ts(_sel(reqs[0]), _REM, mc)))
+        out.append(('mts_explicit_only', all_mts_mixed_ts(_NONE, _sel(*reqs), mc)))    # nothing but names
         if len(reqs) > 1:
             out.append(('mts_mixed_explicit2', all_mts_mixed_ts(_REM, _sel(reqs[-1]), mc)))
             out.append(('mts_mixed_both', all_mts_mixed_ts(_sel(reqs[0]), _sel(*reqs[1:]), mc)))
+        if len(reqs) > 2:        # interleaved semantics: MTS, STS, MTS in declaration order
+            out.append(('mts_interleaved', all_mts_mixed_ts(_sel(reqs[1]), _sel(reqs[0], reqs[2]), mc)))
+            out.append(('sts_interleaved', all_mts_mixed_ts(_sel(reqs[0], reqs[2]), _sel(reqs[1]), mc)))
         if mc is None:
             out.append(('sts_mixed_explicit', all_sts_mixed_ts(_REM, _sel(reqs[0]))))
     return out
